@@ -104,13 +104,15 @@ class WebsocketSession(object):
                 log.debug('WebSocket closed; data not sent')
                 raise errors.WebSocketClosed('data not sent')
             self._writing = True
+            if closing:
+                # Set while the write lock is held, so no other thread
+                # can write a frame after the close frame - and before
+                # the frame is handed to the socket: an interruption
+                # (KeyboardInterrupt, an exception from a signal handler)
+                # may come out of sendall() after all of it was sent.
+                self._state.closing = True
             try:
                 self._sock.sendall(data)
-                if closing:
-                    # Set while the write lock is held, so no other
-                    # thread can write a frame after the close frame
-                    # (and before a nested write is possible again).
-                    self._state.closing = True
             except socket.error as error:
                 log.debug('WebSocket send error; %s', error)
                 raise errors.TransportFail(
